@@ -64,12 +64,12 @@ type sel struct {
 func genRules(thorough bool, emit func(r *sm.Rule)) {
 	sels := []sel{{}, {key: "a"}, {key: "A"}, {rx: "^a"}, {rx: "^A$"}, {count: true}, {count: true, key: "a"}}
 	type ex struct{ key, rx string }
-	excls := []*ex{nil, {key: "a"}, {key: "B"}, {rx: "^b"}}
+	excls := []*ex{nil, {key: "a"}, {key: "B"}, {rx: "^b"}, {rx: "^A"}}
 	trans := [][]string{nil, {"lowercase"}, {"lowercase", "trim"}}
 	type op struct{ op, arg string }
 	ops := []op{{"streq", "x"}, {"contains", "x"}, {"rx", "^x"}, {"eq", "1"}, {"unconditionalMatch", ""}}
 	if !thorough {
-		excls = []*ex{nil, {key: "a"}, {rx: "^b"}}
+		excls = []*ex{nil, {key: "a"}, {rx: "^b"}, {rx: "^A"}}
 		ops = []op{{"streq", "x"}, {"rx", "^x"}, {"eq", "1"}}
 	}
 	for _, c := range colls {
